@@ -380,3 +380,97 @@ package transport
 //@   requires w != nil
 //@   ensures calls(WriteHeader) == 0
 //@   modifies maps
+
+// ---------------------------------------------------------------- C11: websocket protocol (sequential facts only)
+//@ trusted (messageExchanger).NextMessage() (m, err)
+//@ trusted (messageExchanger).Send(m) (err)
+//@   modifies nothing
+//@ trusted (*wsConnection).nextMessageWithTimeout(timeout) (m, err)
+//@ trusted (*wsConnection).handlePossibleError(err, isReadError)
+//@   modifies nothing
+//@ trusted (*wsConnection).sendConnectionError(format, args)
+//@ trusted (*wsConnection).close(closeCode, message)
+//@ trusted encoding/json.Unmarshal(data, v) (err)
+//@   modifies nothing
+//@ trusted encoding/json.Marshal(v) (b, err)
+//@   pure
+//@ trusted field:github.com/99designs/gqlgen/graphql/handler/transport.Websocket.InitFunc(ctx, payload) (c, ack, err)
+//@ trusted field:github.com/99designs/gqlgen/graphql/handler/transport.Websocket.CloseFunc(ctx, code)
+//@ trusted (*github.com/gorilla/websocket.Conn).WriteMessage(t, data) (err)
+//@   modifies nothing
+//@ trusted (*github.com/gorilla/websocket.Conn).Close() (err)
+//@   modifies nothing
+//@ trusted github.com/gorilla/websocket.FormatCloseMessage(code, text) (b)
+//@   pure
+//@ trusted dyn:closer()
+//@   modifies nothing
+
+// No operation before the handshake is accepted: init() returns true only after the FIRST message was a
+// connection_init, the init function (if any) accepted it, and the ack was written; init itself never touches
+// the executor. Do() only enters the message loop after init() returned true.
+//@ func (*wsConnection).init [C11]
+//@   requires c != nil
+//@   ghost acked = false
+//@   at `c.write(&message{t: connectionAckMessageType, payload: initJsonAckPayload})` requires m.t == initMessageType && err == nil
+//@   at `c.write(&message{t: connectionAckMessageType, payload: initJsonAckPayload})` ghost acked = true
+//@   at `c.write(&message{t: connectionAckMessageType})` requires m.t == initMessageType && err == nil
+//@   at `c.write(&message{t: connectionAckMessageType})` ghost acked = true
+//@   ensures res0 ==> acked
+//@   ensures calls(subscribe) == 0 && calls(CreateOperationContext) == 0 && calls(DispatchOperation) == 0 && calls(run) == 0
+//@   ensures !res0 ==> !acked || calls(Unmarshal) == 1
+//@ trusted (*wsConnection).run()
+//@ trusted (*github.com/gorilla/websocket.Upgrader).Upgrade(w, r, h) (c, err)
+//@ trusted (*github.com/gorilla/websocket.Conn).Subprotocol() (s)
+//@   pure
+//@ trusted (Websocket).injectGraphQLWSSubprotocols()
+//@ func (Websocket).Do [C11]
+//@   requires r != nil && exec != nil
+//@   stable wsConnection.exec wsConnection.active
+//@   ghost inited = false
+//@   at `conn.init()` ghost inited = callres0
+//@   at! `conn.run()` requires inited
+//@   ensures calls(run) <= 1
+//@   ensures calls(run) == 1 ==> inited
+
+// close(): idempotent - a second close writes nothing, cancels nothing and does not fire the callback again;
+// the first close writes exactly one close frame, closes the socket once and fires the callback once.
+// All of it under the connection mutex (Lock/Unlock balanced on every path).
+//@ func (*wsConnection).close [C11]
+//@   requires c != nil
+//@   stable wsConnection.CloseFunc Websocket.CloseFunc
+//@   ghost held = false
+//@   at `c.mu.Lock()` ghost held = true
+//@   at `c.mu.Unlock()` ghost held = false
+//@   at `c.conn.WriteMessage(websocket.CloseMessage, websocket.FormatCloseMessage(closeCode, message))` requires held && !c.closed
+//@   at `closer()` requires held
+//@   ensures old(c.closed) ==> calls(WriteMessage) == 0 && calls(CloseFunc) == 0 && calls(Close) == 0 && calls("dyn:closer") == 0
+//@   at `c.conn.Close()` requires c.closed && !held
+//@   ensures !old(c.closed) ==> calls(WriteMessage) == 1 && calls(Close) == 1
+//@   ensures calls(Lock) == 1 && calls(Unlock) == 1 && !held
+//@   ensures calls(CloseFunc) <= 1
+
+// Frames are never written concurrently by these methods: Send only under the mutex.
+//@ func (*wsConnection).write [C11]
+//@   requires c != nil
+//@   ghost held = false
+//@   at `c.mu.Lock()` ghost held = true
+//@   at `c.mu.Unlock()` ghost held = false
+//@   callsite Send: requires held
+//@   ensures calls(Lock) == 1 && calls(Unlock) == 1 && calls(Send) == 1 && !held
+
+// run(): the close watcher waits on the context derived for this loop (cancelled when the loop ends, however it
+// ends), subscribe is only reached from a start message, stop cancels only the addressed operation.
+//@ trusted (*wsConnection).closeOnCancelStub()
+//@ func (*wsConnection).run [C11]
+//@   requires c != nil && c.exec != nil && c.active != nil
+//@   stable wsConnection.exec wsConnection.active
+//@   ghost derived = nil
+//@   at `context.WithCancel(c.ctx)` ghost derived = callres0
+//@   at! `c.closeOnCancel(ctx)` requires arg0 == derived
+//@   at `c.subscribe(start, &m)` requires m.t == startMessageType
+//@   ensures calls(WithCancel) == 1
+//@ func (*wsConnection).closeOnCancel [C11]
+//@   requires c != nil
+//@   at! `ctx.Done()` requires true
+//@   at `closeReasonForContext(ctx)` requires arg0 == ctx
+//@   ensures calls(close) == 1
